@@ -30,6 +30,7 @@ int SIGS[NSG];
 //      (any op may carry the wait-EINTR fault: the loops' epoll_wait()/select() are interrupted now and then, as by a signal that arrives during the wait)
 //      addsig <e> <s> <mode>      (mode -1 keep, 0 persistent, 1 one-shot: the mode given to this initialize(), which is the one in force afterwards)
 //                                 one more signal is added to event e with initialize(signo, mode) (whether or not it is enabled) and it is enabled (again)
+//      badset <loop> <s>          a short-lived event with the set {SIGKILL, s} is enabled on that loop (must be refused, must change nothing) and destroyed
 //      rcb <s1> <via> <e2> <s2>   like raise s1, but the first callback of that delivery enables event e2 (through its own loop) and raises s2 from inside the callback
 //      flood <s> <stall_loop> <n>  loop stall_loop is kept busy (it does not serve its pipe) while signal s is raised n times in batches; the other
 //                                 loops keep running: a pipe that fills up on the stalled loop must not cost the other loops a single delivery
@@ -65,6 +66,7 @@ void generate(sim::Rng &r, uint64_t seed, const std::string &tier, sim::Plan &p)
     else if (x < 63 && nl > 1 && r.chance(400)) { op.kind = "flood"; op.a = {(long)r.below(NSG), (long)r.below((uint64_t)nl), r.range(1100, 1400)}; }
     else if (x < 66) { op.kind = "craise"; op.a = {(long)r.below((uint64_t)nev), (long)r.below(2), (long)r.below(NSG), (long)r.below((uint64_t)nl + 1)}; }
     else if (x < 77 && nl > 1) { op.kind = "pair"; op.a = {(long)r.below((uint64_t)nev), (long)r.below(2), (long)r.below((uint64_t)nev), (long)r.below(2)}; }
+    else if (x < 80) { op.kind = "badset"; op.a = {(long)r.below((uint64_t)nl), (long)r.below(NSG)}; }
     else { op.kind = "raise"; op.a = {(long)r.below(NSG), (long)r.below((uint64_t)nl + 1)}; }
     if (r.chance(250)) { op.fseed = r.next() >> 2; op.fmask = sim::F_WAIT_EINTR; }
     p.ops.push_back(op);
@@ -201,6 +203,25 @@ void execute(const sim::Plan &plan) {
     if (op.kind == "ev") continue;
     sim::fault_scope(op.fseed, op.fmask);
     if (g_rearm && (op.kind == "pair" || op.kind == "rcb" || op.kind == "flood" || op.kind == "craise")) continue;
+    if (op.kind == "badset") {
+      // a short-lived event on loop l is given the set {SIGKILL, s} and enabled: SIGKILL cannot be caught, enable() must refuse, and the
+      // attempt must leave signal s as it was (its subscribers subscribed, or its disposition untouched)
+      int l = (int)(((op.arg(0) % W.nl) + W.nl) % W.nl), sidx = (int)(((op.arg(1) % NSG) + NSG) % NSG);
+      int signo = SIGS[sidx];
+      sim::relevant();
+      sim::probe("enable_with_uncatchable_signal");
+      on_loop(l, [l, signo] {
+        SignalEvent *tmp = W.loops[l]->newSignalEvent("c04.bad");
+        std::set<int> ss; ss.insert(SIGKILL); ss.insert(signo);
+        tmp->initialize(ss, Event::Mode::kPersist);
+        tmp->setCallback([](int) { sim::violation("C04/callback-on-unsubscribed-event", "the callback of an event whose enable() was refused ran"); });
+        if (tmp->enable()) sim::violation("C04/enable-accepted-uncatchable-signal", "enable() of an event subscribed to SIGKILL reported success");
+        if (tmp->isEnabled()) sim::violation("C04/enable-accepted-uncatchable-signal", "an event whose enable() was refused reports that it is enabled");
+        delete tmp;
+      });
+      check_dispositions("after a refused enable()");
+      continue;
+    }
     if (op.kind == "en" || op.kind == "dis" || op.kind == "del") {
       if (W.nev == 0) continue;
       int e = (int)(((op.arg(0) % W.nev) + W.nev) % W.nev);
